@@ -31,10 +31,31 @@ theorem extraAttr_deserialize_post (fx : Fix) (b : Bytes) :
         subst ha
         simp only [copyFixed_length]
         refine ⟨by omega, fun hfx => ?_⟩
-        rw [hfx] at hg
-        simp only [Bool.true_and] at hg
-        have hg' : ¬ (b.length < 2 + beVal (List.take 2 b)) := fun h => hg (decide_eq_true h)
-        omega
+        by_cases hc : b.length < 2 + beVal (List.take 2 b)
+        · exact absurd (by simp [hfx, hc]) hg
+        · omega
+
+/-- With the guard, a decoded extra attribute has at most `maxExtraLen` bytes. -/
+theorem extraAttr_deserialize_extraLe (fx : Fix) (hfx : fx.extraLen = true) (b : Bytes) :
+    PostOk (extraAttr_deserialize fx b)
+      (fun r => ∀ e, r.1 = TxAttr.extra e → e.length ≤ storeMaxExtraLen) := by
+  unfold extraAttr_deserialize
+  refine PostOk.ite (fun _ => PostOk.fail) (fun h => ?_)
+  rw [rdU16_ok (by simp only [storeSszSize] at h; omega)]
+  simp only [bind_eq, pure_eq, M.pure_bind]
+  refine PostOk.ite (fun _ => PostOk.fail) (fun hg => ?_)
+  have hle : beVal (List.take 2 b) ≤ storeMaxExtraLen := by
+    by_cases hc : beVal (List.take 2 b) > storeMaxExtraLen
+    · exact absurd (by simp [hfx, hc]) hg
+    · omega
+  rw [sliceFrom_ok (by simp only [storeSszSize] at *; omega)]
+  intro a ha
+  simp [M.bind, make_eq] at ha
+  subst ha
+  intro e he
+  cases he
+  simp only [copyFixed_length]
+  exact hle
 
 theorem getAttributeFrom_noPanic (c : Nat) : NoPanic (getAttributeFrom c) := by
   unfold getAttributeFrom
@@ -120,108 +141,87 @@ theorem txMetadata_loop_overrun (fx : Fix) (fuel : Nat) (b : Bytes) (i : Nat) (m
   rw [if_neg (by omega), sliceFrom_panic hi]
   simp
 
-/-- The loop as it is vs the loop with the length guard in `extraAttribute.deserialize`. -/
-theorem txMetadata_loop_rel (fuel : Nat) (b : Bytes) (i : Nat) (md : TxMetadata)
-    (hi : i ≤ b.length) (hf : b.length - i < fuel) :
-    PanicOr (TxMetadata.readFromLoop Fix.none fuel b i md) (TxMetadata.readFromLoop Fix.all fuel b i md) := by
-  induction fuel generalizing i md with
-  | zero => omega
-  | succ fuel ih =>
-    unfold TxMetadata.readFromLoop
-    by_cases hne : b.length = i
-    · simp only [hne, if_true]; exact PanicOr.refl _
-    · have hlt : i < b.length := by omega
-      simp only [if_neg hne, sliceFrom_ok hi, bind_eq, M.pure_bind, storeAttrCodeSize, List.length_drop]
-      rw [if_neg (by omega), if_neg (by omega), idx_ok hlt]
-      simp only [M.pure_bind]
-      refine PanicOr.bind_right (fun k _ => ?_)
-      rw [sliceFrom_ok (by omega)]
-      simp only [M.pure_bind]
-      cases k with
-      | truncatedUptoTx =>
-        simp only [TxAttrKind.deserialize]
-        refine PanicOr.bind_right (fun r hr => ?_)
-        have hp := (truncatedUptoTxAttr_deserialize_post (b.drop (i + 1))).2 r hr
-        simp only [List.length_drop] at hp
-        obtain ⟨a, n⟩ := r
-        simp only at hp
-        exact ih (i + 1 + n) (md.set a) (by omega) (by omega)
-      | extra =>
-        simp only [TxAttrKind.deserialize, extraAttr_deserialize, storeSszSize, List.length_drop]
-        by_cases h2 : b.length - (i + 1) < 2
-        · simp only [if_pos h2]; exact PanicOr.refl _
-        · simp only [if_neg h2]
-          rw [rdU16_ok (by simp only [List.length_drop]; omega)]
-          simp only [bind_eq, pure_eq, M.pure_bind, Fix.none_extraLen, Fix.all_extraLen, Bool.false_and, Bool.true_and,
-            Bool.false_eq_true, if_false, decide_eq_true_eq]
-          rw [sliceFrom_ok (by simp only [List.length_drop]; omega)]
-          simp only [M.pure_bind]
-          by_cases hg : b.length - (i + 1) < 2 + beVal (List.take 2 (List.drop (i + 1) b))
-          · -- the guard fires: the code as it is returns n > len(b[i:]) and the next iteration panics
-            right
-            constructor
-            · obtain ⟨f', rfl⟩ : ∃ f', fuel = f' + 1 := ⟨fuel - 1, by omega⟩
-              simp only [M.bind, make_eq, M.pure, copyFixed_length, List.length_replicate]
-              exact txMetadata_loop_overrun Fix.none f' b _ _ (by omega)
-            · exact ⟨.corruptedData, by simp [if_pos hg]⟩
-          · simp only [if_neg hg]
-            refine PanicOr.bind_right (fun r hr => ?_)
-            obtain ⟨a, n⟩ := r
-            simp [M.bind, make_eq, copyFixed_length] at hr
-            obtain ⟨_, rfl⟩ := hr
-            exact ih _ _ (by omega) (by omega)
-
 theorem txMetadata_readFrom_fixed_noPanic (fx : Fix) (hfx : fx.extraLen = true) (b : Bytes) :
     NoPanic (TxMetadata.readFrom fx b) := by
   unfold TxMetadata.readFrom
   refine NoPanic.ite (fun _ => NoPanic.fail _) (fun _ => ?_)
   exact (txMetadata_loop_fixed fx hfx (b.length + 1) b 0 {} (by omega) (by omega)).1
 
-theorem txMetadata_readFrom_rel (b : Bytes) :
-    PanicOr (TxMetadata.readFrom Fix.none b) (TxMetadata.readFrom Fix.all b) := by
+theorem txMetadata_readFrom_fuel (fx : Fix) (hfx : fx.extraLen = true) (b : Bytes) :
+    (TxMetadata.readFrom fx b).res ≠ .err .fuel := by
   unfold TxMetadata.readFrom
-  refine PanicOr.ite (fun _ => PanicOr.refl _) (fun _ => ?_)
-  exact txMetadata_loop_rel (b.length + 1) b 0 {} (by omega) (by omega)
+  split
+  · simp
+  · exact (txMetadata_loop_fixed fx hfx (b.length + 1) b 0 {} (by omega) (by omega)).2
 
-/-- the loop only looks at the `extraLen` flag -/
-theorem txMetadata_readFrom_congr (fx fx' : Fix) (h : fx.extraLen = fx'.extraLen) (b : Bytes) :
-    TxMetadata.readFrom fx b = TxMetadata.readFrom fx' b := by
-  have hloop : ∀ fuel i md, TxMetadata.readFromLoop fx fuel b i md = TxMetadata.readFromLoop fx' fuel b i md := by
-    intro fuel
-    induction fuel with
-    | zero => intro i md; rfl
-    | succ fuel ih =>
-      intro i md
-      unfold TxMetadata.readFromLoop
-      have hd : ∀ k s, TxAttrKind.deserialize fx k s = TxAttrKind.deserialize fx' k s := by
-        intro k s
-        cases k with
-        | truncatedUptoTx => rfl
-        | extra => simp only [TxAttrKind.deserialize, extraAttr_deserialize, h]
-      simp only [hd, ih]
+/-! ### what the decoder accepts can be serialised again -/
+
+/-- `extraAttribute.serialize` slices a `[sszSize+maxExtraLen]byte` array: fine up to `maxExtraLen`. -/
+def TxMetadata.Serializable (md : TxMetadata) : Prop := ∀ e, md.extra = some e → e.length ≤ storeMaxExtraLen
+
+theorem txMetadata_loop_serializable (fx : Fix) (hfx : fx.extraLen = true) (fuel : Nat) (b : Bytes) (i : Nat)
+    (md : TxMetadata) (hmd : md.Serializable) :
+    PostOk (TxMetadata.readFromLoop fx fuel b i md) TxMetadata.Serializable := by
+  induction fuel generalizing i md with
+  | zero => unfold TxMetadata.readFromLoop; exact PostOk.fail
+  | succ fuel ih =>
+    unfold TxMetadata.readFromLoop
+    refine PostOk.ite (fun _ => PostOk.pure hmd) (fun _ => ?_)
+    simp only [bind_eq]
+    refine PostOk.bind (fun rest _ => ?_)
+    refine PostOk.ite (fun _ => PostOk.fail) (fun _ => ?_)
+    refine PostOk.bind (fun c _ => ?_)
+    refine PostOk.bind (fun k _ => ?_)
+    refine PostOk.bind (fun s _ => ?_)
+    refine PostOk.bind (fun r hr => ?_)
+    obtain ⟨a, n⟩ := r
+    refine ih _ _ ?_
+    cases k with
+    | truncatedUptoTx =>
+      simp only [TxAttrKind.deserialize, truncatedUptoTxAttr_deserialize] at hr
+      split at hr
+      · simp at hr
+      · cases hu : (rdU64 s).res with
+        | ok v =>
+          rw [bind_eq, M.bind_res_ok hu] at hr
+          simp at hr
+          rw [← hr.1]
+          intro e he
+          exact hmd e he
+        | err e => rw [bind_eq, M.bind_res_err hu] at hr; simp at hr
+        | panic => rw [bind_eq, M.bind_res_panic hu] at hr; simp at hr
+    | extra =>
+      have := extraAttr_deserialize_extraLe fx hfx s (a, n) hr
+      cases a with
+      | truncatedUptoTx t => intro e he; exact hmd e he
+      | extra x =>
+        intro e he
+        simp only [TxMetadata.set] at he
+        cases he
+        exact this x rfl
+
+theorem txMetadata_readFrom_serializable (fx : Fix) (hfx : fx.extraLen = true) (b : Bytes) :
+    PostOk (TxMetadata.readFrom fx b) TxMetadata.Serializable := by
   unfold TxMetadata.readFrom
-  rw [hloop]
+  refine PostOk.ite (fun _ => PostOk.fail) (fun _ => ?_)
+  exact txMetadata_loop_serializable fx hfx _ b 0 {} (by intro e he; cases he)
 
-theorem txMetadata_readFrom_fuel (fx : Fix) (b : Bytes) : (TxMetadata.readFrom fx b).res ≠ .err .fuel := by
-  have hfix : (TxMetadata.readFrom Fix.all b).res ≠ .err .fuel := by
-    unfold TxMetadata.readFrom
-    split
-    · simp
-    · exact (txMetadata_loop_fixed Fix.all rfl (b.length + 1) b 0 {} (by omega) (by omega)).2
-  cases hx : fx.extraLen with
-  | true => rw [txMetadata_readFrom_congr fx Fix.all (by simp [hx])]; exact hfix
-  | false =>
-    rw [txMetadata_readFrom_congr fx Fix.none (by simp [hx])]
-    rcases txMetadata_readFrom_rel b with h | ⟨hp, _⟩
-    · rw [h]; exact hfix
-    · rw [hp]; simp
-
-/-- every error of the decoder is `ErrCorruptedData` -/
-theorem txMetadata_readFrom_noPanic_of_fixed_ok (b : Bytes)
-    (h : ∀ e, (TxMetadata.readFrom Fix.all b).res ≠ .err e) : NoPanic (TxMetadata.readFrom Fix.none b) := by
-  rcases txMetadata_readFrom_rel b with heq | ⟨_, e, he⟩
-  · rw [heq]; exact txMetadata_readFrom_fixed_noPanic Fix.all rfl b
-  · exact absurd he (h e)
+theorem txMetadata_bytes_noPanic (md : TxMetadata) (h : md.Serializable) : NoPanic md.bytes := by
+  unfold TxMetadata.bytes
+  simp only [bind_eq, pure_eq, M.pure_bind]
+  cases he : md.extra with
+  | none => exact NoPanic.pure _
+  | some e =>
+    have hl := h e he
+    simp only []
+    refine NoPanic.bind ?_ (fun _ _ => NoPanic.pure _)
+    unfold extraAttr_serialize
+    simp only [bind_eq, M.pure_bind]
+    rw [sliceTo_ok (by
+      simp only [List.length_append, copyFixed_length, ImmuModel.be16_length]
+      have : storeSszSize = 2 := rfl
+      omega)]
+    exact NoPanic.pure _
 
 /-! ### allocation -/
 
